@@ -725,6 +725,28 @@ for _w in ("apply_blur_fft", "qslst_restore_fft", "qslst_restore_matrix", "split
     cell(f"{_w}|channels<4", "shape_pair", b_few_channels, _mk_few(_w), lambda p: (p["kind"],))
 
 
+def b_bad_scalar(src):
+    m, n = src.i(1, 4), src.i(1, 4)
+    kind = src.pick(["np.complex128", "np.complex64", "complex", "str", "quaternion", "list"])
+    return {"X": src.q(m, n), "kind": kind, "re": float(src.i(-3, 3)), "im": float(src.i(1, 3)), "left": src.pick([True, False])}
+
+
+def _mk_bad_scalar(p):
+    Sx = S(p["X"])
+    kind = p["kind"]
+    sc = {"np.complex128": np.complex128(complex(p["re"], p["im"])), "np.complex64": np.complex64(complex(p["re"], p["im"])),
+          "complex": complex(p["re"], p["im"]), "str": "2", "quaternion": np.quaternion(p["re"], p["im"], 0.0, 0.0),
+          "list": [p["re"]]}[kind]
+    if p["left"] and kind not in ("np.complex128", "np.complex64", "quaternion", "list"):
+        return [Sx], (lambda: sc * Sx)                 # __rmul__ (numpy scalars / lists on the left broadcast first)
+    return [Sx], (lambda: Sx * sc)
+
+
+# the multiplier of a sparse quaternion matrix must be a REAL scalar (a complex number is not a quaternion scalar here:
+# it would be multiplied into the four real component planes)
+cell("SparseQuaternionMatrix*scalar|non-real multiplier", "dtype", b_bad_scalar, _mk_bad_scalar, lambda p: (p["kind"],))
+
+
 def _dd(src, n):
     """Strictly diagonally dominant n x n (non-singular, well conditioned)."""
     A = src.q(n, n)
